@@ -107,6 +107,8 @@ def replay_factory(cls, route, field=None):
     return replay
 
 
+XC = []  # (input description, predicted result description) per explored path, for the CPython cross-check
+
 CODECS = [
     # (class key, route, label, methods)
     ("lambda_service.ErrorObject", "dict", "error"),
@@ -163,11 +165,31 @@ def round_trip(chk, eng, key, route, label):
                 chk.prove(f"C20.{label}.rt.type", s2.pc, F, desc="result is an instance of the class", describe=desc, replay=rp)
                 continue
             so, sb = s2.get(o), s2.get(back)
+            slv = z3.Solver()
+            slv.set("timeout", 5000)
+            slv.add(*s2.pc)
+            if slv.check() == z3.sat:
+                mdl = slv.model()
+                XC.append((concretize(o, mdl, s2), concretize(back, mdl, s2)))
             for f, ann, _, owner in fields:
                 chk.prove(f"C20.{label}.rt.{f}", s2.pc, nf.equal(s2, so[f], s2, sb[f], ann, owner.module),
                           desc=f"N({from_name}({to_name}(x))).{f} == N(x).{f}", describe=desc, replay=replay_factory(cls, route, f),
                           sample=f"{cls.name}.{f} via {route}: path condition of {len(s2.pc)} conjuncts => field equality modulo N")
     chk.paths += paths
+    # CPython cross-check: one model per explored path, native run, compare with the predicted result object
+    if XC:
+        items = [it for it in XC]
+        del XC[:]
+        try:
+            res = native("codec_crosscheck.py", [{"cls": key, "route": route, "input": a, "expected": b} for a, b in items], timeout=300)
+            for (a, b), r in zip(items, res):
+                if r.get("match"):
+                    chk.validated += 1
+                else:
+                    chk.fault(f"engine/CPython mismatch in {label}: native={r.get('native')} predicted={r.get('predicted')}")
+                    break
+        except Exception as e:  # noqa: BLE001
+            chk.fault(f"codec cross-check harness failed for {label}: {e!r}")
     return paths
 
 
